@@ -69,6 +69,45 @@ void h_aiff_rate (void)
               "function": "aiff.c:uint2tenbytefloat, tenbytefloat2int", "cbmc_flags": ["--unwind", "34", "--object-bits", "9"], "timeout": 600,
               "self_replay": True, "inputs": ["rate"], "replay_link": "all", "replay_exclude": ["aiff.c"],
               "kind": "proof(full domain 1 .. 2^30 - 1; the normalisation loop unwound completely)", "trusted": []}]
+    # byte-order helpers on arrays of any length (inductive loop contracts, ghost element): the frame contracts the float32.c /
+    # double64.c / pcm.c implementation units assume for them, plus the element rule
+    SW = {"short": ("2", "((short) ((((unsigned short) (V)) << 8) | (((unsigned short) (V)) >> 8)))"),
+          "int": ("4", "((int) ((((unsigned) (V)) << 24) | ((((unsigned) (V)) << 8) & 0xff0000u) | ((((unsigned) (V)) >> 8) & 0xff00u) | (((unsigned) (V)) >> 24)))"),
+          "int64_t": ("8", "((int64_t) (((((uint64_t) (V)) & 0xffULL) << 56) | ((((uint64_t) (V)) & 0xff00ULL) << 40) | ((((uint64_t) (V)) & 0xff0000ULL) << 24) | ((((uint64_t) (V)) & 0xff000000ULL) << 8) | "
+                             "((((uint64_t) (V)) >> 8) & 0xff000000ULL) | ((((uint64_t) (V)) >> 24) & 0xff0000ULL) | ((((uint64_t) (V)) >> 40) & 0xff00ULL) | (((uint64_t) (V)) >> 56)))")}
+    for T, (sz, rule) in SW.items():
+        for kind in ("array", "copy"):
+            fn = "endswap_%s_%s" % (T, kind)
+            if kind == "array":
+                sig, req, asg, call = "%s *ptr, int len" % T, "__CPROVER_is_fresh (ptr, (size_t) len * %s)" % sz, "__CPROVER_object_whole (ptr)", "ptr, len"
+                pre = "((0 <= g_idx && g_idx < len) ==> ptr [g_idx] == vin_v)"
+                post = "((0 <= g_idx && g_idx < len) ==> ptr [g_idx] == %s)" % rule.replace("V", "vin_v")
+                inv = "0 <= i && i <= len && ((0 <= g_idx && g_idx < len) ==> ptr [g_idx] == (g_idx < i ? %s : vin_v))" % rule.replace("V", "vin_v")
+                decl = "%s *ptr ; int len ;" % T
+            else:
+                sig, req, asg, call = "%s *dest, const %s *src, int len" % (T, T), "__CPROVER_is_fresh (dest, (size_t) len * %s) && __CPROVER_is_fresh (src, (size_t) len * %s)" % (sz, sz), "__CPROVER_object_whole (dest)", "dest, src, len"
+                pre = "((0 <= g_idx && g_idx < len) ==> src [g_idx] == vin_v)"
+                post = "((0 <= g_idx && g_idx < len) ==> (dest [g_idx] == %s && src [g_idx] == vin_v))" % rule.replace("V", "vin_v")
+                inv = "0 <= i && i <= len && ((0 <= g_idx && g_idx < i && g_idx < len) ==> dest [g_idx] == %s)" % rule.replace("V", "vin_v")
+                decl = "%s *dest ; const %s *src ; int len ;" % (T, T)
+            h = """#include "env_pre.h"
+#include "pcm.c"
+#include "ghost.h"
+%(T)s vin_v ;
+static void %(fn)s (%(sig)s)
+__CPROVER_requires (0 < len && len <= (1 << 28) && %(req)s && %(pre)s)
+__CPROVER_assigns (%(asg)s)
+__CPROVER_ensures (%(post)s) /*@C20.byte_swap_applied_to_every_element*/ /*@C01.byte_swap_applied_to_every_element*/
+;
+void h_unit (void)
+{	%(decl)s %(T)s nd ; vin_v = nd ; GHOST_HAVOC () ;
+	%(fn)s (%(call)s) ;
+	CANARY () ;
+}
+""" % dict(T=T, fn=fn, sig=sig, req=req, pre=pre, post=post, asg=asg, decl=decl, call=call)
+            extra.append({"name": "sfendian." + fn, "props": ["C20", "C01", "C05"], "harness_text": h, "template": "units/gen_pairs.py", "entry": "h_unit", "enforce": fn,
+                          "function": "sfendian.h:" + fn, "timeout": 600, "cbmc_flags": ["--object-bits", "9"],
+                          "loops": {fn: [{"loop_id": 0, "assigns_locals": True, "assigns": asg, "invariants": inv, "decreases": "len - i"}]}, "trusted": []})
     return extra + [{"name": "pairs.pcm_and_byte_order", "props": ["C01", "C20"], "harness_text": "\n".join(h), "template": "units/gen_pairs.py", "entry": "h_pairs",
              "dfcc": False, "function": "pcm.c:" + ", ".join(p[1] + "/" + p[2] for p in PAIRS) + "; sfendian.h:endswap_*",
              "cbmc_flags": ["--unwind", "10"], "timeout": 600, "kind": "proof(full value domain; two-element arrays)",
